@@ -253,6 +253,8 @@ fn multiples(r: &mut Rec) {
 }
 
 pub fn run(r: &mut Rec) {
+    // no failure is documented for bit writes and bit queries: the boundary family must return in both profiles
+    crate::drivers::bits::lowbit_family(r, false);
     div_zero(r);
     underflow(r);
     shifts(r);
